@@ -1,5 +1,6 @@
 import PynencModel.Props.C03
-open Pynenc.C03
+import PynencModel.Props.C03Wakeup
+open Pynenc.C03 Pynenc.C03W
 #print axioms table_pollClaim
 #print axioms table_runOk
 #print axioms table_runRetry
@@ -9,3 +10,8 @@ open Pynenc.C03
 #print axioms operations_end_recoverable
 #print axioms recoverable_leads_to_final
 #print axioms unprotected_is_stuck
+#print axioms inv_step
+#print axioms status_then_push_never_loses
+#print axioms status_then_push_reachable
+#print axioms push_then_status_loses
+#print axioms programs_write_status_before_push
